@@ -20,7 +20,7 @@ fn carries_h(c: char) -> bool {
     matches!(c, '-' | '~' | '+' | '─' | '┄' | '═' | '┬' | '┴' | '┼' | '━') || matches!(c, '.' | ',' | '\'' | '`')
 }
 fn carries_v(c: char) -> bool {
-    matches!(c, '|' | ':' | '!' | '+' | '│' | '╎' | '┊' | '├' | '┤' | '┼' | '┃')
+    matches!(c, '|' | ':' | '!' | '+' | '│' | '╎' | '┊' | '┆' | '├' | '┤' | '┼' | '┃')
 }
 
 /// soundness: every emitted non-filled rect must coincide with border characters
@@ -244,6 +244,51 @@ impl Prop for C05 {
                 }
             },
         ));
+        v.push(Scope::new(
+            "udashed-boxes",
+            "box-drawing styles (sharp and rounded corners) x inner width {1,4} x inner height 1..4 x top/bottom edges of '─' or '┄' x every side pattern over {│,╎,┊,┆} (same on both sides, and mirrored on the right): one rect, class broken exactly when a dashed character is on the border",
+            |f| {
+                for si in [7i64, 8] {
+                    for w in [1i64, 4] {
+                        for h in 1..=4usize {
+                            for hor in 0..2i64 {
+                                enumr::strings_exact(&['│', '╎', '┊', '┆'], h, &mut |p| {
+                                    for mirror in 0..2i64 {
+                                        f(Case::snx("", vec![si, w, h as i64, hor, mirror], vec![p.iter().collect::<String>()]));
+                                    }
+                                });
+                            }
+                        }
+                    }
+                }
+            },
+        ));
+        v.push(Scope::new(
+            "long-gapped",
+            "sharp boxes of inner width 100..260 with one cell of the top or bottom edge blank (at both ends, next to them and in the middle), and of inner height 100..140 with one cell of a side blank: no rect may be emitted over the gap",
+            |f| {
+                for w in [100usize, 101, 104, 128, 200, 260] {
+                    for bottom in [false, true] {
+                        for g in [1usize, 2, 3, w / 2, w - 1, w] {
+                            let mut rows: Vec<Vec<char>> = shapes::box_rows(&shapes::SHARP, w, 2, None, &[]).iter().map(|r| r.chars().collect()).collect();
+                            let r = if bottom { rows.len() - 1 } else { 0 };
+                            rows[r][g] = ' ';
+                            f(Case::s(rows.iter().map(|r| r.iter().collect::<String>()).collect::<Vec<_>>().join("\n")));
+                        }
+                    }
+                }
+                for h in [100usize, 110, 140] {
+                    for right in [false, true] {
+                        for g in [1usize, 2, h / 2, h - 1, h] {
+                            let mut rows: Vec<Vec<char>> = shapes::box_rows(&shapes::SHARP, 3, h, None, &[]).iter().map(|r| r.chars().collect()).collect();
+                            let c = if right { 4 } else { 0 };
+                            rows[g][c] = ' ';
+                            f(Case::s(rows.iter().map(|r| r.iter().collect::<String>().trim_end().to_string()).collect::<Vec<_>>().join("\n")));
+                        }
+                    }
+                }
+            },
+        ));
         v.push(Scope::new("grid4-3x3", "all 3x3 grids over {space,-,|,+}", |f| {
             enumr::grids(&[' ', '-', '|', '+'], 3, 3, &mut |g| f(Case::s(g)))
         }));
@@ -320,6 +365,53 @@ impl Prop for C05 {
                 } else {
                     cx.outcome(&("wide", label.clone(), pos));
                 }
+            }
+            return;
+        }
+        if scope == "udashed-boxes" {
+            let (si, w, h, hor, mirror) = (case.n[0] as usize, case.n[1] as usize, case.n[2] as usize, case.n[3], case.n[4]);
+            let (sname, mut st) = style_by_index(si);
+            if hor == 1 {
+                st.hor = '┄';
+            }
+            let l: Vec<char> = case.x[0].chars().collect();
+            let mut r = l.clone();
+            if mirror == 1 {
+                r.reverse();
+            }
+            let mut rows = shapes::box_rows(&st, w, h, None, &[]);
+            for i in 0..h {
+                let mut cs: Vec<char> = rows[i + 1].chars().collect();
+                cs[0] = l[i];
+                let n = cs.len();
+                cs[n - 1] = r[i];
+                rows[i + 1] = cs.into_iter().collect();
+            }
+            let drawing = rows.join("\n");
+            let d = match cx.conv_doc(&drawing, &Sett::bare()) {
+                Some(d) => d,
+                None => return,
+            };
+            cx.compared();
+            check_soundness(cx, &drawing, &d);
+            let s = 8.0;
+            let dashed = drawing.chars().any(|c| matches!(c, '┄' | '╎' | '┊' | '┆'));
+            let want = (0.5 * s, s, (w as f64 + 1.0) * s, 2.0 * (h as f64 + 1.0) * s, if st.is_rounded() { s / 2.0 } else { 0.0 });
+            let rects: Vec<_> = d.of(Kind::Rect).collect();
+            let mut ok = rects.len() == 1 && d.elems.len() == 1;
+            if ok {
+                let r = rects[0];
+                ok = (r.xs[0], r.ys[0], r.lens[0], r.lens[1], r.lens[2]) == want
+                    && r.has_class(if dashed { "broken" } else { "solid" })
+                    && !r.has_class(if dashed { "solid" } else { "broken" })
+                    && r.has_class("nofill");
+            }
+            if !ok {
+                cx.fail("box-not-one-rect", format!("box style {} inner {}x{} with sides {:?}/{:?}: expected one rect x={} y={} w={} h={} rx={} class {}; got [{}]\n{}",
+                    sname, w, h, l.iter().collect::<String>(), r.iter().collect::<String>(), want.0, want.1, want.2, want.3, want.4,
+                    if dashed { "broken" } else { "solid" }, d.elems.iter().take(8).map(|e| e.brief()).collect::<Vec<_>>().join(" ; "), drawing));
+            } else {
+                cx.outcome(&("udashed", si, dashed, w, h.min(2)));
             }
             return;
         }
